@@ -5,6 +5,8 @@ rendered by the real CodeGenEnvironment / DSDLCodeGenerator for the namespace in
 type and of a field replaced by a symbolic string.
 """
 import os
+
+import xh.xhpatch  # noqa: F401  (switches off CrossHair short-circuiting, see module docstring)
 import pathlib
 import typing
 
